@@ -287,7 +287,9 @@ func randomDerivation(r *rand.Rand, a alpha) string {
 	return common.Pick(r, outs)
 }
 
-var mutAlphabet = []byte("/{}=.*:%a1_A-~ \x00\xff?#[\"")
+// template punctuation, identifier / literal bytes, every pchar punctuation byte that is not an
+// identifier byte, and bytes foreign to templates
+var mutAlphabet = []byte("/{}=.*:%a1_A-~ \x00\xff?#[\"$!&'()+,;@9zZ<>\\|^`")
 
 // mutations emits every single-edit mutation of s over the template alphabet.
 func mutations(s string, each func(string)) {
@@ -424,17 +426,17 @@ func (Area) Gen(r *rand.Rand, tier string, emit func(string)) {
 
 	// 1. every derivation up to the size bound (small alphabet), tokenizers on their bodies
 	maxSegs, maxInner, maxPath := 2, 2, 2
-	if thorough {
-		maxSegs = 3
-	}
 	var derivs []string
 	enumerate(small, maxSegs, maxInner, maxPath, func(s string) {
 		derivs = append(derivs, s)
 	})
 	if thorough {
+		// all derivations with ≤ 2 segments (patterns ≤ 2, field paths ≤ 2), and all with ≤ 3 segments
+		// over patterns / field paths of length 1
 		for _, s := range derivs {
 			parseBoth("derivation-enumerated", s)
 		}
+		enumerate(small, 3, 1, 1, func(s string) { parseBoth("derivation-enumerated", s) })
 	} else {
 		// quick: all with ≤ 1 segment, a seeded sample of the 2-segment ones
 		var one []string
@@ -481,8 +483,17 @@ func (Area) Gen(r *rand.Rand, tier string, emit func(string)) {
 		}
 	}
 
+	// 3b. byte sweep: every byte value at every kind of position (literal, identifier start / rest,
+	// after '.', pattern, verb after a literal / after a variable, percent-escape digits)
+	for b := 0; b < 256; b++ {
+		c := string([]byte{byte(b)})
+		for _, f := range []string{"/%s", "/a%s", "/{%s}", "/{a%s}", "/{a.%s}", "/{a.b%s}", "/{a=%s}", "/{a=b%s}", "/{a=b/%s}", "/a:%s", "/a:v%s", "/{a}:%s", "/{a}%s", "/%%%s0", "/%%0%s", "/a:%%%s0", "/a/%s/b", "/%s/b"} {
+			parseBoth("byte-sweep", fmt.Sprintf(f, c))
+		}
+	}
+
 	// 4. arbitrary strings: over the template alphabet, and arbitrary bytes
-	talpha := []byte("/{}=.*:%aZ09_-~")
+	talpha := []byte("/{}=.*:%aZ09_-~$@!")
 	for i := 0; i < n/2; i++ {
 		s := string(common.RandBytes(r, r.Intn(9), talpha))
 		if r.Intn(4) > 0 {
